@@ -353,7 +353,13 @@ func runCheck(prop, tier string, seed int64) int {
 		for k, v := range r.Extra {
 			if f, ok := v.(float64); ok {
 				if old, ok := agg.Extra[k].(float64); ok {
-					agg.Extra[k] = old + f
+					if strings.HasPrefix(k, "min_") {
+						if f < old {
+							agg.Extra[k] = f
+						}
+					} else {
+						agg.Extra[k] = old + f
+					}
 				} else {
 					agg.Extra[k] = f
 				}
